@@ -25,14 +25,14 @@ func hook(name string) {
 	if e == nil {
 		return
 	}
-	switch {
-	case name == "fields.beforeAppend":
+	if name == "fields.beforeAppend" {
 		sz := int64(0)
 		if st, err := os.Stat(e.LogPath()); err == nil {
 			sz = st.Size()
 		}
 		e.prevLogSize, e.appended = sz, true
-	case name == e.crashPoint && e.crashDir == "":
+	}
+	if name == e.crashPoint && e.crashDir == "" {
 		ndir, err := os.MkdirTemp(tempBase(), "verif-shard-")
 		if err == nil && copyTree(e.Dir, ndir) == nil {
 			e.crashDir = ndir
@@ -54,37 +54,63 @@ func (e *Env) LogSize() (int64, bool) {
 	return st.Size(), true
 }
 
-// CrashTorn: process-kill copy in which only the first j bytes of the record
-// appended by the last operation reached fields.idxl (fromEnd: all but the last
-// j bytes).  Reports whether anything was cut.
-func (e *Env) CrashTorn(j int64, fromEnd bool) (torn bool, err error) {
-	appended, prev := e.appended, e.prevLogSize
-	err = e.Crash(func(shardDir string) error {
-		if !appended {
-			return nil
+// TornOp runs op (a write or a drop) on the live shard with a crash point armed
+// right before its record is appended to fields.idxl.  If the operation appends
+// a record, the crash state is the directory as it was at that moment plus the
+// first j bytes of the record (j < 0: all but the last -j bytes); the live
+// instance is retired and the shard is reopened on the crash state.
+func (e *Env) TornOp(j int64, op func() string) (res string, crashed bool, err error) {
+	current = e
+	e.crashPoint, e.crashDir = "fields.beforeAppend", ""
+	res = op()
+	e.crashPoint = ""
+	if e.crashDir == "" {
+		return res, false, nil
+	}
+	ndir := e.crashDir
+	e.crashDir = ""
+	// the record the live instance appended
+	full, rerr := os.ReadFile(e.LogPath())
+	var rec []byte
+	if rerr == nil && int64(len(full)) >= e.prevLogSize {
+		rec = full[e.prevLogSize:]
+	}
+	n := j
+	if j < 0 {
+		n = int64(len(rec)) + j
+		if n < 0 {
+			n = 0
 		}
-		p := filepath.Join(shardDir, "fields.idxl")
-		st, err := os.Stat(p)
-		if err != nil {
-			return nil
+	}
+	if n > int64(len(rec)) {
+		n = int64(len(rec))
+	}
+	// retire the live instance
+	if !e.dead {
+		e.CloseShard()
+		if e.sfile != nil && !e.dead {
+			WithTimeout(func() error { return e.sfile.Close() })
 		}
-		recLen := st.Size() - prev
-		if recLen <= 0 {
-			return nil
-		}
-		if fromEnd {
-			j = recLen - j
-			if j < 0 {
-				j = 0
-			}
-		}
-		if j >= recLen {
-			return nil
-		}
-		torn = true
-		return os.Truncate(p, prev+j)
-	})
-	return torn, err
+	}
+	os.RemoveAll(e.Dir)
+	wasDead := e.dead
+	e.Dir, e.Sh, e.sfile, e.appended = ndir, nil, nil, false
+	if wasDead {
+		return res, true, ErrTimeout
+	}
+	f, err := os.OpenFile(e.LogPath(), os.O_CREATE|os.O_APPEND|os.O_WRONLY, 0666)
+	if err != nil {
+		return res, true, err
+	}
+	if _, err := f.Write(rec[:n]); err != nil {
+		f.Close()
+		return res, true, err
+	}
+	f.Close()
+	if err := e.openSeriesFile(); err != nil {
+		return res, true, err
+	}
+	return res, true, e.Open()
 }
 
 // CrashInClose closes the shard cleanly and, if the close reaches the crash
